@@ -185,4 +185,13 @@ var props = map[string]*Prop{
 			{Name: "similarity-laws", Pkg: "internal/cli", Test: "TestVerifC19Similarity", Shards: sh(4, 4), TimeoutS: sh(1800, 3600)},
 		},
 	},
+	"C12": {
+		Level: "exploration",
+		Rule: "counted-loop family: IV type {int; thorough: int8, uint8} x shape {classic for, while-style, bottom-tested, exit-on-true `for { if c {break} ... }`, continue in body, extra break, conditional update, two latches with different updates} x test {<,<=,>,>=,!=} x step {1,2,3,5,-1,-2} x start {0,1,a} x bound {7,10,b} (2160 loops per type) + nested and sibling loops; every loop is analysed by the real DetectLoops/AnalyzeSCEV and each claimed {start,+,step} and trip count is compiled as a Go expression INTO an instrumented native twin that runs the same loop on all 256 argument vectors (a,b in -3..12) and compares every header evaluation (k-th value of the variable, modulo its width) and every activation's body count with the claim. Non-trivial = loop for which at least one claim was evaluated.",
+		Assumptions: []string{"claims that contain values the evaluator cannot bind (anything but constants and the two parameters) are counted as not evaluable and skipped", "argument vectors on which the loop does not terminate within the fuel are skipped (counted)"},
+		Bounds:      map[string]string{"quick": "int loops (2160) + 72 nested/sibling", "thorough": "int, int8, uint8 (6480) + 72 nested/sibling"},
+		Units: []Unit{
+			{Name: "loop-family", Pkg: "pkg/diff", Test: "TestVerifC12", Shards: sh(16, 16), TimeoutS: sh(1800, 3600)},
+		},
+	},
 }
